@@ -299,9 +299,16 @@ func hostport(s string) (host, port string) {
 	n := strings.LastIndexByte(s, ':')
 	if n < 0 || strings.HasSuffix(s, "]") {
 		// address without port, e.g. "host" or "[::1]"
-		return s, ""
+		host = s
+	} else {
+		host, port = s[:n], s[n+1:]
 	}
-	return s[:n], s[n+1:]
+	// the brackets of an IPv6 literal are not part of the host:
+	// "[::1]:80" is host "::1" and port "80" like in net.SplitHostPort
+	if len(host) >= 2 && host[0] == '[' && host[len(host)-1] == ']' {
+		host = host[1 : len(host)-1]
+	}
+	return host, port
 }
 
 // atoi is a replacement for strconv.Atoi/strconv.FormatInt
